@@ -482,3 +482,5 @@ def run(ck: Checker) -> None:
     ck.guard("R-LEG-PRECHECK", lambda: r_prechecks(ck))
     ck.guard("R-LEG-CLONE", lambda: r_clone(ck))
     ck.guard("R-LEG-CLONE", lambda: r_clone_collections(ck))
+    from . import state_rules as S
+    ck.guard("R-LEG-CLONE", lambda: S.r_stateless(ck, "R-LEG-CLONE", LNODE, "ASTTransformVisitor", ("transform",), "whether a node is cloned first must not depend on earlier, possibly failed, transforms"))
